@@ -11,7 +11,8 @@ compression layer is C12's).  The model (`Model/BinIO*.lean`) is parametric in `
 of the reader that `translate/c11_tables.py` reads off the *current* source (`Gen.C11.cfg`); the
 theorems hold for every `Cfg`, `bin_roundtrip_current` instantiates them with the generated one.
 
-FULL STATEMENT (false on the code as it is today):
+FULL STATEMENT (false on the pinned source, i.e. for the reader facts `Cfg.today`; the `fix:` commits
+that repaired those facts make `Gen.C11.cfg` sound, and then `bin_roundtrip` applies):
     ∀ ms, WFfull ms → readModules Gen.C11.cfg (writeModules Gen.C11.cfg ms) = .ok ms
 where `WFfull` has no exclusion for `global` variables, prset/prbeq/prbne, data of type p and
 functions that end with a label.
